@@ -18,14 +18,15 @@ def encByte (b : Nat) : String :=
   if safeByte b then String.singleton (Char.ofNat b)
   else String.ofList ['%', hexDigit (b / 16), hexDigit (b % 16)]
 
+/-- a run of one code point repeated ≥ 16 times is written `^n^<unit>` (unit = the %-escaped bytes
+of that code point) -/
 def encTok (s : String) : String :=
-  let b := bytes s
-  match b with
+  match s.toList with
   | [] => "-"
-  | c :: _ =>
-    if b.length ≥ 32 && b.all (· == c) && safeByte c then
-      "^" ++ toString b.length ++ "^" ++ String.singleton (Char.ofNat c)
-    else String.join (b.map encByte)
+  | c :: rest =>
+    if rest.length + 1 ≥ 16 && rest.all (· == c) then
+      "^" ++ toString (rest.length + 1) ++ "^" ++ String.join ((charBytes c).map encByte)
+    else String.join ((bytes s).map encByte)
 
 def ofBytes (b : List UInt8) : Option String := String.fromUTF8? ⟨b.toArray⟩
 
@@ -43,9 +44,9 @@ def decTok (t : String) : Option String :=
   else match t.toList with
     | '^' :: _ =>
       match t.splitOn "^" with
-      | ["", n, c] =>
-        match n.toNat?, c.toList with
-        | some n, [ch] => some (String.ofList (List.replicate n ch))
+      | ["", n, u] =>
+        match n.toNat?, (pctDecode u.toList []).bind ofBytes with
+        | some n, some unit => some (String.join (List.replicate n unit))
         | _, _ => none
       | _ => none
     | cs => (pctDecode cs []).bind ofBytes
@@ -231,22 +232,40 @@ def cmd? : List String → Option Cmd
   | ["unknown", _] => some .unknown
   | _ => none
 
+/-- driver state: the FSM state plus the snapshots taken by `hold k` and not yet persisted -/
+structure DS where
+  s : State := {}
+  held : List (Nat × Snapshot) := []
+
+def DS.init : DS := {}
+
 /-- driver step: `new` | `ap <idx> <cmd…>` (result + dump) | `aq <idx> <cmd…>` (result only) | `dump` |
-`snap` (dump restore(snapshot s), state unchanged) | `swap` (s := restore(snapshot s)) -/
-def step (s : State) (fs : List String) : State × String :=
+`snap` (dump restore(snapshot s), state unchanged) | `swap` (s := restore(snapshot s)) |
+`hold k` (Snapshot() now, keep it) | `held k` (Persist the kept snapshot now and dump its Restore).
+`Snapshot()` deep-copies every entry, so what `held k` restores is the state at the time of `hold k`,
+whatever was applied in between. -/
+def step (d : DS) (fs : List String) : DS × String :=
   match fs with
-  | ["new"] => (State.empty, "ok")
-  | ["snap"] => (s, dump (restore (snapshot s)))
-  | ["swap"] => let s' := restore (snapshot s); (s', dump s')
-  | ["dump"] => (s, dump s)
+  | ["new"] => ({}, "ok")
+  | ["snap"] => (d, dump (restore (snapshot d.s)))
+  | ["swap"] => let s' := restore (snapshot d.s); ({ d with s := s' }, dump s')
+  | ["dump"] => (d, dump d.s)
+  | ["hold", k] =>
+    match nat? k with
+    | some k => ({ d with held := (k, snapshot d.s) :: d.held }, "ok")
+    | none => (d, "bad-op")
+  | ["held", k] =>
+    match (nat? k).bind (fun k => d.held.lookup k) with
+    | some sn => (d, dump (restore sn))
+    | none => (d, "bad-op")
   | "aq" :: idx :: rest =>
     match nat? idx, cmd? rest with
-    | some i, some c => let r := apply s i c; (r.1, resStr r.2)
-    | _, _ => (s, "bad-op")
+    | some i, some c => let r := apply d.s i c; ({ d with s := r.1 }, resStr r.2)
+    | _, _ => (d, "bad-op")
   | "ap" :: idx :: rest =>
     match nat? idx, cmd? rest with
-    | some i, some c => let r := apply s i c; (r.1, resStr r.2 ++ " " ++ dump r.1)
-    | _, _ => (s, "bad-op")
-  | _ => (s, "bad-op")
+    | some i, some c => let r := apply d.s i c; ({ d with s := r.1 }, resStr r.2 ++ " " ++ dump r.1)
+    | _, _ => (d, "bad-op")
+  | _ => (d, "bad-op")
 
 end Arc.C22.Wire
